@@ -76,7 +76,10 @@ func ruGuard(rep *ruRep, key string, input func() string, f func()) {
 
 // ruPar runs body(i) for i in [0, items) on several goroutines. The body may only read package
 // globals of the implementation (the caller sets them before and restores them after).
-func ruPar(c *Ctx, items int, body func(i int, rep *ruRep)) {
+func ruPar(c *Ctx, items int, body func(i int, rep *ruRep)) { ruParChunk(c, items, 128, body) }
+
+// ruParChunk: ruPar with the number of consecutive items a worker takes at a time (1 for few, expensive items).
+func ruParChunk(c *Ctx, items, chunk int, body func(i int, rep *ruRep)) {
 	workers := runtime.GOMAXPROCS(0)
 	if workers > 16 {
 		workers = 16
@@ -84,7 +87,6 @@ func ruPar(c *Ctx, items int, body func(i int, rep *ruRep)) {
 	if workers < 1 {
 		workers = 1
 	}
-	const chunk = 128
 	var next int64
 	reps := make([]*ruRep, workers)
 	var wg sync.WaitGroup
@@ -94,7 +96,7 @@ func ruPar(c *Ctx, items int, body func(i int, rep *ruRep)) {
 		go func(rep *ruRep) {
 			defer wg.Done()
 			for {
-				lo := int(atomic.AddInt64(&next, chunk)) - chunk
+				lo := int(atomic.AddInt64(&next, int64(chunk))) - chunk
 				if lo >= items {
 					return
 				}
@@ -596,6 +598,19 @@ func propC02(c *Ctx) {
 			} else if p, err := roman.DefaultParser(b, 0); err != nil || uint64(p) != n {
 				rep0.fail("C02.flagbits.roundtrip", "roman.parse 128 0 "+hx(b), "%q -> %d %v, want %d", b, uint64(p), err, n)
 			}
+			// the same bit pattern as the package's DefaultFormat: MarshalText, String and %s read it bit by bit as well
+			func() {
+				defer ruSetDefaultFormat(roman.Format(fl))()
+				N := roman.Number(n)
+				pl := fmt.Sprintf("roman.paths %d %d", n, fl)
+				ruGuard(rep0, "C02.flagbits.default", func() string { return pl }, func() {
+					rep0.evals++
+					mt, err := N.MarshalText()
+					if st, sv := N.String(), fmt.Sprintf("%s", N); err != nil || string(mt) != want || st != want || sv != want {
+						rep0.fail("C02.flagbits.default", pl, "DefaultFormat = %d: MarshalText %q %v, String %q, %%s %q, want %q", fl, mt, err, st, sv, want)
+					}
+				})
+			}()
 			if ni%9 == 4 || n == 0 || n == 3999 {
 				c.Op(line)
 			}
@@ -667,6 +682,61 @@ func propC02(c *Ctx) {
 			})
 		}
 		repL.merge(c)
+	}()
+
+	// ---- long numerals under EVERY flag set (the block above uses the four all-or-nothing sets only): random numbers of
+	// 131 to 1500 thousands, and hand-picked thousands counts beyond 2^12 / 2^16 / 2^20 with the tails that have a 4 or a 9
+	// in every position. The formatter is judged on the whole numeral under all 128 flag sets; the parser and the validity
+	// check (limit off) on every DISTINCT numeral of a number while it stays below about 5 KB (the regexp needs a quarter
+	// of a second per mebibyte).
+	func() {
+		defer ruSetRomanMax(0)()
+		var lns []uint64
+		for i := 0; i < 200; i++ {
+			lns = append(lns, uint64(131+c.R.Intn(1370))*1000+uint64(c.R.Intn(1000)))
+		}
+		for _, k := range []uint64{257, 4097, 5000, 65536, 70001} {
+			for _, t := range []uint64{444, 999, 449, 494, 944, 499, 949, 994} {
+				lns = append(lns, k*1000+t)
+			}
+		}
+		lns = append(lns, 1<<20*1000+444, 1<<20*1000+999)
+		ruParChunk(c, len(lns), 1, func(i int, rep *ruRep) {
+			n := lns[i]
+			k := int(n / 1000)
+			parsed := map[string]bool{}
+			rep.nt++
+			for fl := 0; fl < 128; fl++ {
+				fl := fl
+				line := func() string { return fmt.Sprintf("roman.format %d %d -", n, fl) }
+				ruGuard(rep, "C02.large", line, func() {
+					rep.evals++
+					tail := ruNumeral(n%1000, fl)
+					m := "M"
+					if fl&64 != 0 {
+						m = "m"
+					}
+					b, err := roman.DefaultFormatter(nil, roman.Number(n), roman.Format(fl))
+					if err != nil || len(b) != k+len(tail) || strings.Count(string(b[:k]), m) != k || string(b[k:]) != tail {
+						got := string(b)
+						if len(got) > 12 {
+							got = "…" + got[len(got)-12:]
+						}
+						rep.fail("C02.large.canonical", line(), "numeral of %d bytes ending in %q (%v), want %d bytes: %d x %s + %q", len(b), got, err, k+len(tail), k, m, tail)
+						return
+					}
+					if k > 5000 || parsed[string(b)] {
+						return
+					}
+					parsed[string(b)] = true
+					p, e := roman.DefaultParser(b, 0)
+					ev := roman.Valid(string(b), 0)
+					if e != nil || ev != nil || uint64(p) != n {
+						rep.fail("C02.large.roundtrip", line(), "limit off, numeral of %d bytes (%d x %s + %q) -> %d %v / %v, want %d", len(b), k, m, tail, uint64(p), e, ev, n)
+					}
+				})
+			}
+		})
 	}()
 
 	// ---- the property is stated relative to the parser's input limit: under the limit the package ships with (captured
@@ -794,6 +864,35 @@ func ruCrossFormats(c *Ctx) {
 	}
 	for _, bad := range []string{"IIIII", "iiiii", "IC", "ic", "VX", "MCMXCIVX", "abc", "ABC", "I I", "i\n", " I", "IVI", "ivi", "XM", "Z", "z"} {
 		cases = append(cases, tc{bad, 0, false})
+	}
+	// every one of the 128 defined output settings (crossRomanFormats is a table of eight): the numerals of the table in
+	// their short and long spelling, upper and lower case, and the malformed texts
+	var small []tc
+	for _, x := range cases {
+		if !x.ok || x.s == ruUpper(x.s) || x.s == ruLower(x.s) {
+			small = append(small, x)
+		}
+	}
+	for fi := 0; fi < 128; fi++ {
+		func() {
+			f := roman.Format(fi)
+			defer ruSetDefaultFormat(f)()
+			rep := &ruRep{}
+			seen := map[string]bool{}
+			for _, x := range small {
+				if seen[x.s] {
+					continue
+				}
+				seen[x.s] = true
+				n0 := len(rep.ex)
+				ruCheckRomanRule(rep, x.s, x.v, x.ok, 0)
+				ruCheckRomanUnmarshal(rep, x.s, x.v, x.ok)
+				for i := n0; i < len(rep.ex); i++ {
+					rep.ex[i].Detail += fmt.Sprintf(" [roman.DefaultFormat = %d]", fi)
+				}
+			}
+			rep.merge(c)
+		}()
 	}
 	for _, f := range crossRomanFormats {
 		func() {
@@ -1141,6 +1240,59 @@ func propC10(c *Ctx) {
 			repM.fail("C10.value", fmt.Sprintf("roman.parse 0 0 <%d x M + mcdxliv>", 1<<20), "%d %v, want %d", uint64(p), err, want)
 		}
 		repM.merge(c)
+	}()
+	// ---- texts longer than the default limit with EVERY tail of the language (the block above has three tails): with
+	// the limit off, each of the 1728 tails behind 129 to 528 thousands, re-cased, one in four edited, through every entry
+	// point and both rules; and thousands counts of 1000, 2^12+1, 10,000 and 66,000 with twelve tails that between them
+	// show every form of every group (parser and validity check, string and []byte, default rule).
+	func() {
+		defer ruSetRomanMax(0)()
+		texts := make([]string, 0, len(tails))
+		for _, t := range tails {
+			s := strings.Repeat("M", 129+c.R.Intn(400)) + t
+			if c.R.Intn(4) == 0 {
+				s = ruMutateRoman(c.R, s)
+			}
+			texts = append(texts, ruRandCase(c.R, s))
+		}
+		for i := 0; i < 40; i++ {
+			c.Op("roman.parse 0 0 " + hx([]byte(texts[(i*43+int(c.Seed))%len(texts)])))
+		}
+		ruParChunk(c, len(texts), 16, func(i int, rep *ruRep) {
+			v, ok := lang.recognise(texts[i])
+			rep.nt++
+			ruCheckRoman(rep, texts[i], v, ok)
+		})
+		forms := func(one, five, ten byte) []string {
+			var fs []string
+			for f := range ruGroupForms(one, five, ten, 1) {
+				fs = append(fs, f)
+			}
+			sort.Strings(fs)
+			return fs
+		}
+		hs, ts, us := forms('C', 'D', 'M'), forms('X', 'L', 'C'), forms('I', 'V', 'X')
+		var big []string
+		for _, k := range []int{1000, 4097, 10000, 66000} {
+			for i := 0; i < 12; i++ {
+				s := strings.Repeat("M", k) + hs[i] + ts[(i+5)%12] + us[(i+7)%12]
+				switch i % 3 {
+				case 1:
+					s = ruLower(s)
+				case 2:
+					s = ruRandCase(c.R, s)
+				}
+				big = append(big, s)
+			}
+		}
+		ruParChunk(c, len(big), 1, func(i int, rep *ruRep) {
+			v, ok := lang.recognise(big[i])
+			if !ok {
+				rep.fail("C10.oracle", "", "recogniser rejects a numeral of %d bytes", len(big[i]))
+			}
+			rep.nt++
+			ruCheckRomanRule(rep, big[i], v, ok, 0)
+		})
 	}()
 }
 
